@@ -200,7 +200,7 @@ class ModuleNameToBeartypeConf(dict[str, 'BeartypeConf']):
 
 # ....................{ CACHERS                            }....................
 #FIXME: Unit test us up, please.
-def cache_from_source_beartype(*args, **kwargs) -> str:
+def cache_from_source_beartype(*args, conf_marker: str = '', **kwargs) -> str:
     '''
     Beartype-specific variant of the
     :func:`importlib._bootstrap_external.cache_from_source` function applying a
@@ -209,9 +209,11 @@ def cache_from_source_beartype(*args, **kwargs) -> str:
     This, in turn, ensures that submodules residing in packages registered by a
     prior call to the :func:`beartype_package` function are
     compiled to files with the filetype
-    ``".pyc{optimization}_{OPTIMIZATION_MARKER_BEARTYPE}"``, where
+    ``".pyc{optimization}_{OPTIMIZATION_MARKER_BEARTYPE}{conf_marker}"``, where
     ``{optimization}`` is the original ``optimization`` parameter passed to this
-    function call.
+    function call and ``{conf_marker}`` is the optional alphanumeric substring
+    uniquifying the beartype configuration under which these submodules are
+    transformed (defaulting to the empty string).
     '''
 
     # Avoid circular import dependencies.
@@ -224,7 +226,36 @@ def cache_from_source_beartype(*args, **kwargs) -> str:
     # New optimization parameter applied by this monkey-patch of that function,
     # uniquifying that parameter with a beartype-specific suffix.
     kwargs['optimization'] = (
-        f'{optimization_marker_nonbeartype}{OPTIMIZATION_MARKER_BEARTYPE}')
+        f'{optimization_marker_nonbeartype}{OPTIMIZATION_MARKER_BEARTYPE}'
+        f'{conf_marker}'
+    )
 
     # Defer to the implementation of the original cache_from_source() function.
     return cache_from_source_original(*args, **kwargs)
+
+
+def make_cache_from_source_beartype(conf: BeartypeConf):
+    '''
+    Beartype-specific variant of the
+    :func:`importlib._bootstrap_external.cache_from_source` function applying a
+    beartype-specific optimization marker uniquifying both this version of
+    :mod:`beartype` *and* the passed beartype configuration to that function.
+
+    The abstract syntax tree (AST) transformation applied by beartype import
+    hooks depends on this configuration (e.g., the ``claw_is_pep526`` option
+    governs whether annotated assignments are type-checked). Bytecode compiled
+    under one configuration *must* thus never be reused under another.
+    '''
+    assert isinstance(conf, BeartypeConf), f'{repr(conf)} not configuration.'
+
+    # Avoid circular import dependencies.
+    from functools import partial
+    from hashlib import sha256
+
+    # Alphanumeric substring uniquifying this configuration, derived from the
+    # machine-readable representation of this configuration (which is stable
+    # across Python processes).
+    conf_marker = f'c{sha256(repr(conf).encode("utf-8")).hexdigest()[:16]}'
+
+    # Defer to the above function, passed this substring.
+    return partial(cache_from_source_beartype, conf_marker=conf_marker)
